@@ -150,6 +150,8 @@ class Gen:
     def stmt(self, depth):
         r = self.rng
         kinds = ["mstore"] * 4 + ["sstore"] * 3 + ["if"] * 3 + ["loop", "log", "copy", "tstore", "mstore8", "pop"]
+        if self.nargs:
+            kinds += ["pinned-copy"]
         if self.callees or self.f.get("call_missing", True):
             kinds += ["call"] * 3
         if self.f.get("create", False):
@@ -191,6 +193,19 @@ class Gen:
             for _ in range(n):
                 topics += self.expr(1)
             return topics + [("push", r.choice([0, 32, 64])), ("push", r.choice([0, 32])), f"LOG{n}"]
+        if k == "pinned-copy":
+            # inside a branch that has learnt `a_i == c`, copy a window that covers only PART of that calldata word (and
+            # windows straddling it): concretization of a partial view must keep the window
+            i = r.randrange(self.nargs)
+            c = r.choice([0, 1, 42, 0x1122334455667788, (1 << 256) - 1, r.randrange(1 << 256)])
+            end = self.fresh("pend")
+            base = 4 + 32 * i
+            src = base + r.choice([0, 1, 8, 24, 28, 31]) - r.choice([0, 0, 0, 4])
+            size = r.choice([1, 4, 8, 31, 32, 33, 40])
+            dst = r.choice([0, 1, 32, 64])
+            tail = [("push", r.choice([0, 32, 64])), "MLOAD", ("push", 0xA0), "MSTORE"] if r.random() < 0.5 else []
+            return ([("push", c), ("push", base), "CALLDATALOAD", "EQ", "ISZERO", ("ref", end), "JUMPI",
+                     ("push", size), ("push", max(src, 0)), ("push", dst), "CALLDATACOPY"] + tail + [("label", end)])
         if k == "copy":
             kind = r.choice(["CALLDATACOPY", "CODECOPY", "MCOPY", "RETURNDATACOPY"])
             self.count("copy:" + kind)
